@@ -359,6 +359,14 @@ def faces (s : List Nat) : List (List Nat) := (sublists s).filter (fun t => deci
 /-- `S.add_simplices_from(simplices)` on an empty complex: all faces, once each -/
 def closure (simplices : List (List Nat)) : List (List Nat) := dedup (simplices.flatMap faces)
 
+/-- `flag_complex(G, max_order, ps)` / `flag_complex_d2(G, p2)`: all graph edges plus the closure of the cliques that
+    won their coin flip (`picked`: the promoted cliques, the oracle; each must be a clique with ≥ 3 and ≤ max_order+1
+    nodes, else `none`) -/
+def flagPromoted (n : Nat) (adj : Nat → Nat → Bool) (maxOrder : Nat) (picked : List (List Nat)) : Option (List (List Nat)) :=
+  if picked.all (fun c => decide (c ∈ flagComplex n adj maxOrder) && decide (3 ≤ c.length)) then
+    some (dedup (flagComplex n adj 1 ++ picked.flatMap faces))
+  else none
+
 /-- `random_simplicial_complex(N, ps)`: sizes `2 … len(ps)+1`, coin per combination, then closure -/
 def randomSC (n : Nat) (sizes : List Nat) (coins : List Bool) : Option (List (List Nat) × List Bool) :=
   match coinRandom n sizes coins with
